@@ -5,6 +5,7 @@ package main
 import (
 	"crypto/ed25519"
 	"fmt"
+	"math/big"
 	"math/rand"
 	"strings"
 
@@ -121,7 +122,12 @@ func refInternal(s sendSpec) *boc.Cell {
 	_ = c.WriteInt(int64(int8(wc)), 8)
 	_ = c.WriteBytes(addr[:])
 	refGrams(c, s.amount)
-	_ = c.WriteBit(false)
+	if len(s.xs()) == 0 {
+		_ = c.WriteBit(false)
+	} else {
+		_ = c.WriteBit(true)
+		_ = c.AddRef(refExtraDict(s.xs()))
+	}
 	refGrams(c, 0)
 	refGrams(c, 0)
 	_ = c.WriteUint(0, 64)
@@ -146,6 +152,27 @@ func refInternal(s sendSpec) *boc.Cell {
 	return c
 }
 
+// refExtraDict: extra_currencies dict:(HashmapE 32 (VarUInteger 32)): the dictionary cell, built by the shared dictionary
+// encoder (C05) from the ids as uint32 keys and the amounts written by hand as `len:(#< 32) value:(uint (len * 8))`
+func refExtraDict(l []extraCur) *boc.Cell {
+	keys := make([]tlb.Uint32, len(l))
+	vals := make([]tlb.Any, len(l))
+	for i, x := range l {
+		keys[i] = tlb.Uint32(uint32(x.id))
+		v, _ := new(big.Int).SetString(x.amt, 10)
+		bs := v.Bytes()
+		c := boc.NewCell()
+		_ = c.WriteUint(uint64(len(bs)), 5)
+		_ = c.WriteBytes(bs)
+		vals[i] = tlb.Any(*c)
+	}
+	d := boc.NewCell()
+	if err := tlb.Marshal(d, tlb.NewHashmap(keys, vals)); err != nil {
+		panic(err)
+	}
+	return d
+}
+
 // refRaw: the reference internal message paired with the REQUESTED mode
 func (s sendSpec) refRaw() wallet.RawMessage {
 	return wallet.RawMessage{Message: refInternal(s), Mode: s.requestedMode()}
@@ -163,6 +190,7 @@ type intInfo struct {
 	splitDepth, special, hasCode, hasData, hasLib bool
 	code, data                                    *boc.Cell
 	body                                          *boc.Cell
+	extraDict                                     *boc.Cell
 }
 
 func parseInternal(msg *boc.Cell) (*intInfo, error) {
@@ -194,7 +222,9 @@ func parseInternal(msg *boc.Cell) (*intInfo, error) {
 	}
 	x.amount = rd(int(rd(4)) * 8)
 	if rd(1) != 0 {
-		return nil, fmt.Errorf("extra currencies")
+		if x.extraDict, err = c.NextRef(); err != nil {
+			return nil, fmt.Errorf("extra currencies ref: %v", err)
+		}
 	}
 	rd(int(rd(4)) * 8)
 	rd(int(rd(4)) * 8)
@@ -264,6 +294,9 @@ func checkInit(path string, i int, s sendSpec, got *boc.Cell) string {
 	if x.bounce != s.bounceFlag() || x.amount != s.amount {
 		return bad("value-or-bounce-changed")
 	}
+	if r := checkExtras(path, i, s, got, x); r != "" {
+		return r
+	}
 	if code == nil {
 		return ""
 	}
@@ -290,6 +323,43 @@ func checkInit(path string, i int, s sendSpec, got *boc.Cell) string {
 		if err != nil || h.Hex(hs) != h.Hex(x.addr[:]) {
 			return bad("deploy-address-is-not-the-hash-of-the-carried-state-init")
 		}
+	}
+	return ""
+}
+
+// checkExtras: requested vs extracted CurrencyCollection.Other: the dictionary read back (library decoder on the sent
+// message) holds exactly the requested (id, amount) pairs, and the dictionary cell is the reference one
+func checkExtras(path string, i int, s sendSpec, got *boc.Cell, x *intInfo) string {
+	bad := func(what string) string { return fmt.Sprintf("FAIL %s-extra-currencies-%s message=%d", path, what, i) }
+	if (x.extraDict != nil) != (len(s.xs()) > 0) {
+		if x.extraDict == nil {
+			return bad("dropped")
+		}
+		return bad("unrequested")
+	}
+	if len(s.xs()) == 0 {
+		return ""
+	}
+	var m tlb.Message
+	if err := tlb.Unmarshal(tableCell(cellTable(got)), &m); err != nil || m.Info.SumType != "IntMsgInfo" {
+		return bad("undecodable")
+	}
+	items := m.Info.IntMsgInfo.Value.Other.Dict.Items()
+	if len(items) != len(s.xs()) {
+		return bad(fmt.Sprintf("count got=%d want=%d", len(items), len(s.xs())))
+	}
+	want := map[uint32]string{}
+	for _, e := range s.xs() {
+		want[uint32(e.id)] = e.amt
+	}
+	for _, it := range items {
+		v := big.Int(it.Value)
+		if w, ok := want[uint32(it.Key)]; !ok || w != v.String() {
+			return bad(fmt.Sprintf("changed id=%d", uint32(it.Key)))
+		}
+	}
+	if hashOrNil(x.extraDict) != hashOrNil(refExtraDict(s.xs())) {
+		return bad("dictionary-cell-changed")
 	}
 	return ""
 }
